@@ -9,7 +9,10 @@ CONSTANTS
   InitStores <- CollStores
   PublishAfterUnlock = TRUE
   CreatedRevalidated = FALSE
-  SubSer = TRUE
+  SubSer = FALSE
+  MayCancel = FALSE
+  SnapAtCommit = TRUE
+  CollectLive = TRUE
 VIEW ViewNoHist
 INVARIANTS TypeOK CommitValid EffectOnce LoserCodes
 CHECK_DEADLOCK FALSE
